@@ -359,6 +359,38 @@ func c18(r *report.Run) {
 				}
 			}
 		}
+		// membership in a range is membership in its elements, for every operand (floats and dynamically typed sums
+		// included); the length of a range follows from its bounds
+		for _, x := range []string{"I", "F", "F + 1", "I + F", "I + 1", "-I", "I * 2", "F * 2", "I + 0.5", "I8", "I8 + I"} {
+			for _, a := range []string{"0", "1", "3", "-1", "J"} {
+				for _, b := range []string{"0", "1", "3", "-1", "2"} {
+					vars := []string{}
+					for _, nm := range []string{"I8", "I", "F", "J"} {
+						if strings.Contains(strings.ReplaceAll(x+" "+a, "I8", "#8"), nm) || (nm == "I8" && strings.Contains(x, "I8")) {
+							vars = append(vars, nm)
+						}
+					}
+					for _, v := range henv.Valuations(vars) {
+						order++
+						for _, form := range [][2]string{
+							{fmt.Sprintf("(%s) in %s..%s", x, a, b), fmt.Sprintf("any(%s..%s, {# == %s})", a, b, x)},
+							{fmt.Sprintf("(%s) not in %s..%s", x, a, b), fmt.Sprintf("none(%s..%s, {# == %s})", a, b, x)},
+							{fmt.Sprintf("len(%s..%s)", a, b), fmt.Sprintf("%s >= %s ? %s - %s + 1 : 0", b, a, b, a)},
+							{fmt.Sprintf("count(%s..%s, {true})", a, b), fmt.Sprintf("%s >= %s ? %s - %s + 1 : 0", b, a, b, a)},
+						} {
+							l := c18Run(form[0], m, henv.Make(v), vars, &extra)
+							rr := c18Run(form[1], m, henv.Make(v), vars, &extra)
+							if strings.HasPrefix(l.norm, "compile:") || strings.HasPrefix(rr.norm, "compile:") {
+								continue
+							}
+							if l.fail != rr.fail || l.norm != rr.norm {
+								report1(order, "range-membership=element-equality", m.String(), "value", form[0], form[1], v, fmt.Sprintf("%s (failed=%v) != %s (failed=%v)", l.norm, l.fail, rr.norm, rr.fail), a+".."+b, x)
+							}
+						}
+					}
+				}
+			}
+		}
 		// a collection created inside a closure does not disturb the collection being iterated
 		for _, xe := range xss {
 			if xe.R.Op == "nested-hash" || xe.Size() > 3 {
@@ -391,11 +423,11 @@ func c18(r *report.Run) {
 				}
 			}
 		}
-		for _, xs := range []string{"A", "1..I", "[I, 1, 2]", "filter(A, {# > 1})", "S"} {
+		for _, xs := range []string{"A", "1..I", "[I, 1, 2]", "filter(A, {# > 1})", "S", "NN[:1][0]", "NN[0:2][1]", "NN[1:][2]", "OS[:1][0].Name", "map(NN, {#[1:]})[0]"} {
 			for _, i := range []string{"-1", "0", "1", "2", "3", "4", "5", "J"} {
 				vars := []string{}
-				for _, nm := range []string{"A", "I", "S", "J"} {
-					if strings.Contains(xs+" "+i, nm) {
+				for _, nm := range []string{"A", "I", "S", "J", "NN", "OS"} {
+					if strings.Contains(strings.ReplaceAll(xs, "OS", "")+" "+i, nm) || (nm == "OS" && strings.Contains(xs, "OS")) {
 						vars = append(vars, nm)
 					}
 				}
